@@ -39,8 +39,10 @@ theorem infra_pending_call_table :
     Skeleton.current.bcPublishSelectOutsideLock = true ∧ Skeleton.current.bcPublishLooksUpUnderLock = true := by decide
 
 /-- Failures of the link, and only those, travel as panics into `setErr`: every `panic(…)` hands on a tested error,
-    a sentinel or a context's error; the recover blocks are canonical; every error branch reports and leaves. -/
+    a sentinel or a context's error; the recover blocks are canonical; every error branch reports and leaves — and the
+    responder leaves ONLY that way: a request is answered or the link ends. -/
 theorem infra_failures_reach_setErr :
+    Skeleton.current.respEveryReturnReports = true ∧
     Skeleton.current.panicSitesCanonical = true ∧ Skeleton.current.recoverBlocksCanonical = true ∧
     Skeleton.current.errBranchesHandled = true ∧ Skeleton.current.locksBalanced = true := by decide
 
